@@ -337,7 +337,9 @@ def input_fault_family(ctx, r):
                 layout.append((name, off + 8, len(data) - 8))
         for h in range(n):
             name, off, ln = layout[h]
-            faults = [("removed", None), ("emptied", 0), ("offset-past-eof", "eof")]
+            # "eof32": the recorded offset is the true one plus 2^32 — far past the end of the file, and equal to a valid block
+            # position modulo 2^32 (an offset kept in 32 bits would silently read that block)
+            faults = [("removed", None), ("emptied", 0), ("offset-past-eof", "eof"), ("offset-past-eof", "eof32")]
             cuts = list(range(off - 4, off + ln)) if ctx.thorough() else sorted(set([off - 4, off - 1, off, off + 1, off + 79, off + 80, off + 81, off + ln - 1] + [r.randrange(off - 4, off + ln) for _ in range(6)]))
             faults += [("truncated", c) for c in cuts]
             for kind, arg in faults:
@@ -366,9 +368,10 @@ def input_fault_family(ctx, r):
                         newkvs.append((key, val))
                     s.meta = {"fault": kind, "h": h}
                     s._far = True
-                s.meta = {"fault": kind, "h": h, "arg": arg if arg != "eof" else -1}
-                m = K.run_model([_with_far(s, h)] if kind == "offset-past-eof" else [s])[0]
-                res = (_with_far(s, h) if kind == "offset-past-eof" else s).run_impl()
+                s.meta = {"fault": kind, "h": h, "arg": arg if arg not in ("eof", "eof32") else (-1 if arg == "eof" else -32)}
+                far = _with_far(s, h, 2**32 if arg == "eof32" else 10**7) if kind == "offset-past-eof" else None
+                m = K.run_model([far] if far is not None else [s])[0]
+                res = (far if far is not None else s).run_impl()
                 ctx.mark(("input-fault", cb, h, kind, arg), True)
                 ctx.families["input-fault:" + kind] += 1
                 if m["exit"] == 0:
@@ -379,8 +382,8 @@ def input_fault_family(ctx, r):
                     ctx.disagree("input-fault", dict(bb.describe(s), fault=kind), {"exit": res.exit}, {"exit": m["exit"]}, False, {"scenario": bb.scenario_dump(s), "observable": "exit-code"})
 
 
-def _with_far(s, h):
-    """copy of s whose record for height h names an offset past the end of its file"""
+def _with_far(s, h, delta=10**7):
+    """copy of s whose record for height h names an offset past the end of its file (by `delta`)"""
     t = K.Scenario(coin=s.coin, callback=s.callback)
     t.files = s.files
     t.meta = s.meta
@@ -406,7 +409,7 @@ def _with_far(s, h):
         fno, i = rd(val, i)
         off, i2 = rd(val, i)
         if height == h:
-            val = val[:i] + varint(off + 10**7) + val[i2:]
+            val = val[:i] + varint(off + delta) + val[i2:]
         t.kvs.append((key, val))
     return t
 
